@@ -185,6 +185,9 @@ def judge_route(res, k, ref, intent, exp, decs, surface, wit):
     for name in ('communities', 'ext_communities', 'large_communities'):
         if name in got:
             got[name] = sorted(set(got[name]))  # a value written twice in the text is sent twice: same meaning
+    if want.get('as_path') == '*empty-or-default*':
+        default = [] if k['ibgp'] else [(2, [k['las']])]
+        want = dict(want, as_path=got.get('as_path') if got.get('as_path') in ([], default) else default)
     for name in sorted(set(got) | set(want)):
         if got.get(name) != want.get(name):
             sub = ''
